@@ -47,10 +47,14 @@ func checkBehaviour(t *fw.T, src string, layout string, cfgs []Cfg) {
 	var po ParseOut
 	// every third group of cases is parsed by a parser built from a long-lived builder that served other modes before
 	recycled := (t.Index/16)%3 == 2
+	observed := (t.Index/16)%3 == 1 // ... and every third group under observing plugins (see parseObserved)
 	if !t.Guard("parse", wit, func() {
-		if recycled {
+		switch {
+		case recycled:
 			po = parseRecycled(src, t.Index/16)
-		} else {
+		case observed:
+			po = parseObserved(src, t.Index/16)
+		default:
 			po = parse(src, Mode{})
 		}
 	}) {
@@ -276,6 +280,7 @@ var c01Hazards = []string{
 	"print(z); let z = 1",
 	"function outer() { function inner() { return 1 } return inner() + 1 } print(outer())",
 	"// leading comment\nprint(1) // trailing\n// own line\n\n\nprint(2)\n// before end",
+	"print(0755); print(010 + 1); print(00); print(007); print(0x1F); print(0b101); print(0o17); print(1e3); print(5 .toString() + 1.5.toFixed(1));",
 	"let o = {\"9007199254740993\": \"alice\", \"12345678901234567890123\": \"b\", \"1e21\": 1, \"010\": 2, \"0x10\": 3, \"1.0\": 4, \".5\": 5, \"-1\": 6, \"7\": 7, \"a-b\": 8, \"if\": 9, '': 10};\nprint(Object.keys(o).join(\"|\")); print(o[\"9007199254740993\"]); print(o[\"1e21\"]); print(o[\"010\"]); print(o[8]); print(o[\"\"]);",
 	"function f(o, a, b) { if (o) if (a) print(1); else { if (b) print(2) } else print(3) }\nf(0,0,0); f(1,0,0); f(1,0,1); f(1,1,0); f(0,1,1);\nfunction g(o, a, b) { if (o) { if (a) print(4) } else if (b) print(5); else print(6) }\ng(0,0,0); g(0,0,1); g(1,0,0); g(1,1,0);\nfunction h(a, b) { if (a) if (b) print(7); else print(8) }\nh(0,0); h(1,0); h(1,1); h(0,1);",
 }
